@@ -118,6 +118,7 @@ class FixSym:
         self.outs: list[Out] = []
         self.depth = 0
         self.count_fns: dict[str, bool] = {}      # function id -> reads the partition attribute
+        self.partial_counts: dict[str, str] = {}  # function id -> why it is not the number of all classes
 
     # ------------------------------------------------------------------ entry
     def run(self, fi: FuncInfo):
@@ -125,6 +126,23 @@ class FixSym:
         if not ps:
             raise Undecided("driver without parameter")
         st = State({ps[0]: G(0)}, set())
+        # parameters with a constant default that no caller in the repository passes have that default
+        a_ = fi.node.args
+        defaults = dict(zip([x.arg for x in (a_.posonlyargs + a_.args)][len(a_.posonlyargs + a_.args) - len(a_.defaults):], a_.defaults))
+        defaults.update({x.arg: d for x, d in zip(a_.kwonlyargs, a_.kw_defaults) if d is not None})
+        all_ps = [x.arg for x in a_.posonlyargs + a_.args]
+        for name, d in defaults.items():
+            if name == ps[0] or not (isinstance(d, ast.Constant) and (d.value is None or isinstance(d.value, (int, bool)))):
+                continue
+            passed = False
+            for g in self.ctx.cg.funcs.values():
+                for cs in self.ctx.cg.sites.get(g.fq, []):
+                    if cs.kind == "tucan" and cs.target.fq == fi.fq:
+                        if any(k.arg == name or k.arg is None for k in cs.node.keywords) or any(isinstance(x, ast.Starred) for x in cs.node.args) \
+                                or (name in all_ps and len(cs.node.args) > all_ps.index(name)):
+                            passed = True
+            if not passed:
+                st.env[name] = ("none",) if d.value is None else ("int", int(d.value))
         self.exec_fn(fi, st, top=True)
         return self.outs
 
@@ -179,7 +197,12 @@ class FixSym:
         if isinstance(s, ast.AugAssign):
             st3 = st.copy()
             if isinstance(s.target, ast.Name):
-                st3.env[s.target.id] = UNK("augmented assignment")
+                cur_ = st3.env.get(s.target.id)
+                if isinstance(cur_, tuple) and cur_[:1] in (("int",), ("num",)) and isinstance(s.op, (ast.Add, ast.Sub, ast.Mult)) \
+                        and isinstance(s.value, ast.Constant) and isinstance(s.value.value, int):
+                    st3.env[s.target.id] = ("num",)          # a counter: some number (never None)
+                else:
+                    st3.env[s.target.id] = UNK("augmented assignment")
             return [st3]
         if isinstance(s, ast.Return):
             if s.value is None:
@@ -401,11 +424,12 @@ class FixSym:
                 s3.env[test.target.id] = t
                 out += self.truth(t, s3)
             return out
-        if isinstance(test, ast.Compare) and len(test.ops) == 1 and isinstance(test.ops[0], (ast.Eq, ast.NotEq)):
+        if isinstance(test, ast.Compare) and len(test.ops) == 1 and (isinstance(test.ops[0], (ast.Eq, ast.NotEq)) or (
+                isinstance(test.ops[0], (ast.Is, ast.IsNot)) and isinstance(test.comparators[0], ast.Constant) and test.comparators[0].value is None)):
             out = []
             for a, s2 in self.ev(fr, test.left, st):
                 for b, s3 in self.ev(fr, test.comparators[0], s2):
-                    op = "==" if isinstance(test.ops[0], ast.Eq) else "!="
+                    op = "==" if isinstance(test.ops[0], (ast.Eq, ast.Is)) else "!="
                     out += self.truth(("bool", op, a, b), s3)
             return out
         if isinstance(test, ast.Compare) and len(test.ops) == 1 and isinstance(test.ops[0], (ast.Lt, ast.LtE, ast.Gt, ast.GtE)):
@@ -441,6 +465,10 @@ class FixSym:
             _, op, a, b = t
             if a == b and a[0] != "unk":
                 return [(op == "==", st)]
+            # None against something that is a value for sure (a count, a graph, a number, a record)
+            for x, y in ((a, b), (b, a)):
+                if x == ("none",) and isinstance(y, tuple) and y[:1] and y[0] in ("cnt", "g", "nodes", "int", "num", "inst", "tup", "seq", "pairs"):
+                    return [(op != "==", st)]
             pos = ("eq" if op == "==" else "ne", a, b)
             neg = ("ne" if op == "==" else "eq", a, b)
             for f in (pos, neg):
@@ -587,6 +615,14 @@ class FixSym:
                 if fq not in self.count_fns:
                     clo = [cs.target] + [self.ctx.cg.funcs[q] for q in self.ctx.cg.closure([fq])]
                     reads = False
+                    partial = None
+                    try:
+                        others = {v for v in (self.ctx.repo.try_const("tucan.graph_attributes", nm, None) for nm in self.ctx.repo.module("tucan.graph_attributes").assigns)
+                                  if isinstance(v, str) and v != self.part}
+                    except (NameError, UnboundLocalError):
+                        raise
+                    except Exception:
+                        others = set()
                     for f in clo:
                         if f.fq == self.step.fq:
                             reads = False
@@ -596,9 +632,24 @@ class FixSym:
                                 c = self.ctx.repo.try_const(f.module, n.id, None)
                                 if c == self.part:
                                     reads = True
+                                elif isinstance(c, str) and c in others and partial is None:
+                                    partial = f"{f.qualname} also reads the attribute `{c}`"
                             if isinstance(n, ast.Constant) and n.value == self.part:
                                 reads = True
+                            elif isinstance(n, ast.Constant) and isinstance(n.value, str) and n.value in others and partial is None:
+                                partial = f"{f.qualname} also reads the attribute `{n.value}`"
+                            if isinstance(n, ast.comprehension) and partial is None:
+                                for c_ in n.ifs:
+                                    about_partition = any((isinstance(z, ast.Name) and self.ctx.repo.try_const(f.module, z.id, None) == self.part) or
+                                                          (isinstance(z, ast.Constant) and z.value == self.part) for z in ast.walk(c_))
+                                    if not about_partition:
+                                        partial = f"{f.qualname} counts only the atoms that pass `{short(c_)}`"
+                                        break
                     self.count_fns[fq] = reads
+                    if reads and partial:
+                        self.partial_counts[fq] = partial
+                if self.count_fns[fq] and fq in self.partial_counts:
+                    return "partial:" + fq
                 return fq if self.count_fns[fq] else None
         txt = norm(e)
         consts = [n for n in ast.walk(e) if (isinstance(n, ast.Name) and self.ctx.repo.try_const(fi.module, n.id, None) == self.part) or (isinstance(n, ast.Constant) and n.value == self.part)]
